@@ -326,3 +326,36 @@ func VerifC19StalledSend() {
 	vAssert(car.closed, "the carrier is closed")
 	vCover("c19-stalled-end")
 }
+
+// VerifC19SendWhileReceive: one goroutine sends while another receives on the same
+// connection. Encoder and Decoder share one buffer pool; whatever the interleaving and
+// whichever pooled buffer each side gets, the packet on the wire and the packet received are
+// intact (a buffer is not given back while its bytes are still to be written).
+func VerifC19SendWhileReceive() {
+	car := newVCarrier(false)
+	conn := NewBaseConn(car)
+	conn.SetMaxWriteDelay(10 * time.Millisecond)
+	id := vU16("id")
+	vAssume(id != 0)
+	car.readCh <- []byte{0x40, 0x02, 0x12, 0x34}
+	done := make(chan int, 2)
+	var sendErr, recvErr error
+	var got packet.Generic
+	go func() {
+		sendErr = conn.Send(&packet.Puback{ID: packet.ID(id)}, vBool("async"))
+		done <- 1
+	}()
+	go func() {
+		got, recvErr = conn.Receive()
+		done <- 2
+	}()
+	<-done
+	<-done
+	vAssert(sendErr == nil && recvErr == nil, "send and receive succeed")
+	vAssert(conn.Close() == nil, "close succeeds")
+	log := car.snapshot()
+	vAssert(len(log) == 4 && log[0] == 0x40 && log[1] == 2 && log[2] == byte(id>>8) && log[3] == byte(id), "the packet sent reaches the wire intact")
+	p, ok := got.(*packet.Puback)
+	vAssert(ok && p.ID == 0x1234, "the packet received is intact")
+	vCover("c19-sendwhilereceive-end")
+}
